@@ -4,6 +4,7 @@ import B6.Spec.Query
 import B6.Lemmas.Simplify
 import B6.Props.C21
 import B6.Lemmas.InterpFuel
+import B6.Lemmas.SimplifyFO3
 /-!
 C22 — simplification never changes a program's result.
 
@@ -23,10 +24,12 @@ argument tree afterwards, and `Evaluate` of both programs).
   comparing the two interpreter meanings (the tie between the run's oracle and the specification).
 * `interp_mono`, `beta0_context`, `build_query_context` (proved): fuel monotonicity, and the two
   value-preserving rewrite steps lifted from the root to any argument position outside lambdas.
+* `simplify_preserves_lambda_free` (= `simplify_preserves_partial`, proved): for every well-formed
+  lambda-free program the simplified program has the same observable outcome with the same fuel.
 * `simplify_preserves_statement`: the semantic half (the simplified program has the interpreter's
   meaning of the original) for programs in which no lambda parameter is named like a global function.
-  Not proved in general (it needs observational equivalence of function values: `{a -> f a}` and `f`
-  are different values); what is proved: each rewrite step at the root of a program
+  Not proved for programs with lambdas (it needs a fuel-indexed relation on closures: `{a -> f a}` and `f`
+  are different values, closure bodies are rewritten); what is proved there: each rewrite step at the root of a program
   (`beta0_step`, `noarg_step`, `build_query_step`).  The side condition is forced:
   `shadow_capture_counterexample` (finding `shadowed-global`).  The correspondence run compares
   `Evaluate e` with `Evaluate (Simplify e)` and both with the interpreter on every generated program.
@@ -258,6 +261,96 @@ example :
       = c (.sym "pair") [i 1, c (.sym "sub") [c (.lam [] (c (.sym "add") [i 1, i 2])) [], i 1]] ∧
     interp 5 (c (.sym "pair") [i 1, c (.sym "sub") [c (.lam [] (c (.sym "add") [i 1, i 2])) [], i 1]])
       = .ok (.pair (.int 1) (.int 2)) := ⟨rfl, rfl⟩
+
+/-! ### meaning preservation on lambda-free programs -/
+
+/-- **simplify_preserves_lambda_free** (the `_partial` of `simplify_preserves_statement`).  For every
+well-formed program without lambda expressions, every fuel with which the program has an outcome, the
+simplified program has — with the same fuel — the same outcome: the same error, or a value with the same
+observation (data structurally, queries up to `Query.canon`, functions by arity).  Covers every rewrite
+`Simplify` performs on such programs at any depth: `(f)` ↦ `f` (also in function position:
+`((add)) 1 2` ↦ `add 1 2`), building query literals from `and / or / typed / keyed / tagged` calls,
+flattening query literals, and the in-place rewriting of the argument tree.  Function values (builtins
+and partial applications at any depth, with any arguments) are compared by a simulation that normalises
+chains of partial applications (`Lemmas/SimplifyFO*`: `Sim`, `apply_sim`, `simplifyBoth_sim`). -/
+theorem simplify_preserves_lambda_free (e s : Expr) (hl : e.lambdaFree = true) (hw : wellFormed e = true)
+    (hs : simplify e = some s) (fuel : Nat) (hne : interp fuel e ≠ .error .fuel) :
+    (interp fuel s).map (fun v => (Simplify.canonVal v).obs) =
+      (interp fuel e).map (fun v => (Simplify.canonVal v).obs) := by
+  have hsl := B6.Lemmas.EvalGuards.simplify_lambdaFree e s hl hs
+  unfold simplify simplifyWith at hs
+  cases h1 : Simplify.simplifyBoth Simplify.tableArgc (e.size + 1) e with
+  | none => simp [h1] at hs
+  | some r0 =>
+    obtain ⟨s', m⟩ := r0
+    simp only [h1, Option.map_some, Option.some.injEq] at hs
+    subst hs
+    obtain ⟨hS, _⟩ := B6.Lemmas.SimplifyFO.simplifyBoth_sim _ e s' m hl h1
+    have he : interp fuel e = evalWith (applyFn fuel) [] e := by simp [interp, hw]
+    rw [he] at hne ⊢
+    have r := hS fuel hne
+    unfold interp
+    cases hws : wellFormed s' with
+    | true =>
+      simp only [if_true]
+      cases h2 : evalWith (applyFn fuel) [] e with
+      | error err =>
+        cases h3 : evalWith (applyFn fuel) [] s' with
+        | error err' => simp [h2, h3, B6.Lemmas.SimplifyFO.ResSim] at r; simp [Except.map, r]
+        | ok _ => simp [h2, h3, B6.Lemmas.SimplifyFO.ResSim] at r
+      | ok v =>
+        cases h3 : evalWith (applyFn fuel) [] s' with
+        | error err' => simp [h2, h3, B6.Lemmas.SimplifyFO.ResSim] at r
+        | ok v' =>
+          simp only [h2, h3, B6.Lemmas.SimplifyFO.ResSim] at r
+          have := B6.Lemmas.SimplifyFO.Sim.cobs_eq v' v r
+          simp only [B6.Lemmas.SimplifyFO.cobs] at this
+          simp [Except.map, this]
+    | false =>
+      simp only [Bool.false_eq_true, if_false]
+      have hnp := (B6.Props.C21.numLambdas_of_lambdaFree s' hsl).2
+      have hwf : wfAt [] s' = false := by
+        simp only [wellFormed, hnp, Nat.zero_le, decide_true, Bool.and_true] at hws
+        exact hws
+      obtain ⟨err, herr⟩ := B6.Lemmas.SimplifyFO.illformed_error (applyFn fuel) s' hsl hwf
+      rw [herr] at r
+      cases h2 : evalWith (applyFn fuel) [] e with
+      | ok v => simp [h2, B6.Lemmas.SimplifyFO.ResSim] at r
+      | error err' =>
+        simp only [h2, B6.Lemmas.SimplifyFO.ResSim] at r
+        subst r
+        have hnp2 := B6.Lemmas.EvalGuards.evalWith_noPanic (applyFn fuel) (B6.Lemmas.EvalGuards.applyFn_noPanic fuel) [] e
+        rw [h2] at hne hnp2
+        cases err <;> simp_all [B6.Lemmas.EvalGuards.NoPanic, Except.map]
+
+/-- non-vacuity: `pair (((sub)) 1 5) (and [a] [b & c])` ↦ `pair (sub 1 5) [a & b & c]` -/
+example :
+    simplify (c (.sym "pair") [c (c (.sym "sub") []) [i 1, i 5],
+        c (.sym "and") [.lit (.query (.keyed "a")), .lit (.query (.inter [.keyed "b", .keyed "c"]))]])
+      = some (c (.sym "pair") [c (.sym "sub") [i 1, i 5], .lit (.query (.inter [.keyed "a", .keyed "b", .keyed "c"]))]) ∧
+    Expr.lambdaFree (c (.sym "pair") [c (c (.sym "sub") []) [i 1, i 5],
+        c (.sym "and") [.lit (.query (.keyed "a")), .lit (.query (.inter [.keyed "b", .keyed "c"]))]]) = true ∧
+    wellFormed (c (.sym "pair") [c (c (.sym "sub") []) [i 1, i 5],
+        c (.sym "and") [.lit (.query (.keyed "a")), .lit (.query (.inter [.keyed "b", .keyed "c"]))]]) = true ∧
+    interp 5 (c (.sym "pair") [c (c (.sym "sub") []) [i 1, i 5],
+        c (.sym "and") [.lit (.query (.keyed "a")), .lit (.query (.inter [.keyed "b", .keyed "c"]))]])
+      = .ok (.pair (.int (-4)) (.query (.inter [.keyed "a", .inter [.keyed "b", .keyed "c"]]))) := ⟨rfl, rfl, rfl, rfl⟩
+
+/-- `simplify_preserves_statement` restricted to lambda-free programs (its conclusion holds with
+`fuel' = fuel`; the side condition on parameter names is vacuous without lambdas) -/
+theorem simplify_preserves_statement_lambda_free :
+    ∀ (e s : Expr), e.lambdaFree = true → wellFormed e = true → Simplify.shadowsGlobal e = false →
+      simplify e = some s → ∀ (fuel : Nat), interp fuel e ≠ .error .fuel →
+        ∃ fuel', (interp fuel' s).map (fun v => (Simplify.canonVal v).obs)
+               = (interp fuel e).map (fun v => (Simplify.canonVal v).obs) :=
+  fun e s hl hw _ hs fuel hne => ⟨fuel, simplify_preserves_lambda_free e s hl hw hs fuel hne⟩
+
+/-- the name planned in DESIGN for the proved part of `simplify_preserves_statement` -/
+theorem simplify_preserves_partial (e s : Expr) (hl : e.lambdaFree = true) (hw : wellFormed e = true)
+    (hs : simplify e = some s) (fuel : Nat) (hne : interp fuel e ≠ .error .fuel) :
+    (interp fuel s).map (fun v => (Simplify.canonVal v).obs) =
+      (interp fuel e).map (fun v => (Simplify.canonVal v).obs) :=
+  simplify_preserves_lambda_free e s hl hw hs fuel hne
 
 section variadic
 open B6.Model.Simplify
